@@ -143,13 +143,33 @@ func c19DocF(r *fw.Rand, hostile bool, first int) (string, []string) {
 					}
 				}
 				notes = append(notes, "several-nameless-people")
+			case 15: // people of the same name with the same event in the same year at the same place (nothing a page is sorted by tells them apart)
+				a, b := pick(), pick()
+				for tries := 0; a == b && tries < 20; tries++ {
+					b = pick()
+				}
+				b.Given, b.Surname = a.Given, a.Surname
+				b.Names, a.Names = nil, nil
+				tag := []string{"DEAT", "RESI", "BIRT"}[r.Intn(3)]
+				y := r.Range(1700, 1900)
+				text := []string{fmt.Sprint(y), fmt.Sprintf("Mar %d", y), fmt.Sprintf("3 Mar %d", y)}[r.Intn(3)]
+				for _, p := range []*gen.Person{a, b} {
+					var kept []*gen.Ev
+					for _, e := range p.Events {
+						if e.Tag != tag {
+							kept = append(kept, e)
+						}
+					}
+					p.Events = append(kept, &gen.Ev{Tag: tag, Y: y, Text: text, Place: "Twin Falls, Idaho, USA"})
+				}
+				notes = append(notes, "same-name-same-event-same-year-same-place")
 			}
 		}
 	}
 	return g.Text(), notes
 }
 
-const c19Features = 15
+const c19Features = 16
 
 func c19N(tier string) int {
 	if tier == "thorough" {
